@@ -340,18 +340,29 @@ impl<H: DnsHandle> DnssecDnsHandle<H> {
                 //
                 // * If the query type is DS *and* the parent zone is Insecure
                 // * For other query types, if the queried name is provably Insecure
-                if let Err(err) = self
-                    .find_ds_records(
-                        match query.query_type {
-                            RecordType::DS => query.name.base_name(),
-                            _ => query.name.clone(),
-                        },
-                        options,
-                    )
-                    .await
-                {
-                    if err.proof == Proof::Insecure {
-                        return Ok(message);
+                //
+                // Neither applies if records of the authority section were authenticated: then the
+                // response comes from a signed zone that we have a chain of trust to (possibly from
+                // a trust anchor below an insecure delegation), and the denial of existence has to
+                // be authenticated as well.
+                let from_signed_zone = message
+                    .authorities
+                    .iter()
+                    .any(|record| record.proof.is_secure());
+                if !from_signed_zone {
+                    if let Err(err) = self
+                        .find_ds_records(
+                            match query.query_type {
+                                RecordType::DS => query.name.base_name(),
+                                _ => query.name.clone(),
+                            },
+                            options,
+                        )
+                        .await
+                    {
+                        if err.proof == Proof::Insecure {
+                            return Ok(message);
+                        }
                     }
                 }
 
